@@ -1,0 +1,21 @@
+//go:build verif
+
+package exported
+
+// Interface contracts for the verification machinery in /verif (comment-only file; no code).
+// Every implementation of the interface is checked against these (or listed as assumed).
+//
+// verif:import sdk github.com/cosmos/cosmos-sdk/types
+// verif:spec clientTypeOf(cs ClientState) string
+// verif:spec verifiedCommitment(cs ClientState, store sdk.KVStore, height Height, proof []byte, srcChain string, dstChain string, sequence uint64, commitment []byte) bool
+// verif:spec verifiedAck(cs ClientState, store sdk.KVStore, height Height, proof []byte, srcChain string, dstChain string, sequence uint64, ack []byte) bool
+
+// verif:iface ClientState.ClientType()
+//@ pure
+//@ ensures [fn] result == clientTypeOf(recv)
+
+// verif:iface ClientState.VerifyPacketCommitment(ctx, store, cdc, height, proof, srcChain, dstChain, sequence, commitmentBytes)
+//@ ensures [verified] result == nil ==> verifiedCommitment(recv, store, height, proof, srcChain, dstChain, sequence, commitmentBytes)
+
+// verif:iface ClientState.VerifyPacketAcknowledgement(ctx, store, cdc, height, proof, srcChain, dstChain, sequence, ackBytes)
+//@ ensures [verified] result == nil ==> verifiedAck(recv, store, height, proof, srcChain, dstChain, sequence, ackBytes)
